@@ -54,6 +54,9 @@ func propC02(c *Ctx, r *Report) {
 	r.NotDecided = append(r.NotDecided,
 		"section order, id definition/dominance, type uniqueness, operand type rules, block termination and merge nesting, capability declaration completeness, layout decorations, interface lists")
 	c.runSpirvTables(r)
+	r.Clauses = append(r.Clauses, "block recursion (E3): every statement walker of the SPIR-V backend that descends into 3 of the 4 block-bearing statement kinds descends into all nested blocks (body and continuing of loops, both branches of ifs, every switch case) - the walkers that collect the globals of an entry point feed the OpEntryPoint interface list required from SPIR-V 1.4 on")
+	c.runBlockWalkers(r, "operands", "spirv", inPkgs("spirv/internal/codegen"), nil)
+	r.floor("spirv.Block.walkers", 3)
 	r.floor("tables.OpCode", 150)
 	r.floor("tables.Capability", 20)
 	r.floor("tables.StorageClass", 10)
